@@ -128,7 +128,8 @@ def independent(case, paths, tfpath):
             if fmt == "kitti":
                 rtmp = ref
             else:
-                rtmp, trajs[name] = sync.associate_trajectories(ref, trajs[name], max_diff=o.get("t_max_diff", 0.01))
+                # (a SyncException only counts as a legitimate refusal when numpy confirms that no stamp pair is within max_diff)
+                rtmp, trajs[name] = c01.associate_or_wrong_refusal(ref, trajs[name], o.get("t_max_diff", 0.01), 0.0)
             if o.get("align") or o.get("correct_scale"):
                 trajs[name].align(rtmp, correct_scale=bool(o.get("correct_scale")),
                                   correct_only_scale=bool(o.get("correct_scale")) and not o.get("align"), n=o.get("n_to_align", -1))
